@@ -310,6 +310,10 @@ class Inst:
             return {}          # the falsy instance of a model without required properties
         for name, req, k in props_:
             deep = d >= self.maxdepth
+            if k[0] == "file":
+                if req:
+                    raise NoInstance()      # a binary payload has no JSON representation
+                continue
             if req or (not deep and rng.random() < 0.6):
                 if deep and not req:
                     continue
